@@ -535,6 +535,10 @@ type injector struct {
 	seq     int
 	x       corruptCtx
 	selfBad int
+	// storageFault: the first storage request of the case is answered 503, so that an object the corrupted answer
+	// was about goes through the retry path (second batch request) with whatever the client kept from that answer
+	storageFault bool
+	sfired       int
 }
 
 func (in *injector) hook(rq *fakelfs.Request) *fakelfs.Fault {
@@ -542,6 +546,11 @@ func (in *injector) hook(rq *fakelfs.Request) *fakelfs.Fault {
 	defer in.mu.Unlock()
 	c := in.c
 	target := strings.TrimSuffix(strings.TrimSuffix(in.cor.resp, "-upload"), "-download")
+	if in.storageFault && (rq.Kind == "storage-get" || rq.Kind == "storage-put") && in.sfired == 0 {
+		in.sfired++
+		c.count("corrupted_answer_then_transient_storage_fault", 1)
+		return &fakelfs.Fault{Status: 503}
+	}
 	if rq.Kind != target || (in.fired > 0 && !in.always) {
 		return nil
 	}
@@ -599,17 +608,33 @@ func (in *injector) hook(rq *fakelfs.Request) *fakelfs.Fault {
 	return &fakelfs.Fault{Status: status, Body: raw}
 }
 
+// batchCorruptionIdx: the corruptions of batch answers (part corrupt-retry runs these with a transient storage fault).
+var batchCorruptionIdx = func() []int {
+	var out []int
+	for i, c := range corruptions {
+		if strings.HasPrefix(c.resp, "batch-") {
+			out = append(out, i)
+		}
+	}
+	return out
+}()
+
 func (c *caseCtx) partCorrupt(spec caseSpec) {
 	cor := corruptions[spec.sub%len(corruptions)]
 	round := spec.sub / len(corruptions)
+	retry := spec.part == "corrupt-retry"
+	if retry {
+		cor = corruptions[batchCorruptionIdx[spec.sub%len(batchCorruptionIdx)]]
+		round = spec.sub / len(batchCorruptionIdx)
+	}
 	// A response that always carries a next_cursor makes any client page forever: that is the
 	// server's doing, not a property of the requests. Cursor cases are injected once only.
 	always := round%2 == 1 && !strings.HasPrefix(cor.name, "next_cursor")
-	in := &injector{c: c, cor: cor, always: always}
+	in := &injector{c: c, cor: cor, always: always, storageFault: retry}
 	in.x.c = c
-	c.class = "corrupt/" + cor.resp + "/" + cor.name
+	c.class = spec.part + "/" + cor.resp + "/" + cor.name
 	if strings.HasPrefix(cor.name, "next_cursor-needs-escaping") {
-		c.class = "corrupt/" + cor.resp + "/next_cursor-needs-escaping"
+		c.class = spec.part + "/" + cor.resp + "/next_cursor-needs-escaping"
 	}
 	if always {
 		c.class += "/every-response"
@@ -626,8 +651,14 @@ func (c *caseCtx) partCorrupt(spec caseSpec) {
 		}
 		c.srv.SetHook(in.hook)
 		e := &expect{op: "upload", refs: []string{"refs/heads/main"}}
+		if retry {
+			c.must(dir, "config", "lfs.transfer.maxretrydelay", "1")
+		}
 		c.git("push-corrupted", dir, e, "push", "origin", "main")
 		c.srv.SetHook(nil)
+		if retry {
+			break
+		}
 		c.git("push-again", dir, e, "push", "origin", "main")
 		c.addLFSCommit(dir, 2, "more")
 		c.git("push-more", dir, e, "push", "origin", "main")
@@ -650,12 +681,18 @@ func (c *caseCtx) partCorrupt(spec caseSpec) {
 		}
 		c.srv.SetHook(in.hook)
 		e := &expect{op: "download", refs: []string{"refs/heads/main"}}
+		if retry {
+			c.must(clone, "config", "lfs.transfer.maxretrydelay", "1")
+		}
 		if round%2 == 0 {
 			c.lfs("fetch-corrupted", clone, e, "fetch")
 		} else {
 			c.lfs("pull-corrupted", clone, e, "pull")
 		}
 		c.srv.SetHook(nil)
+		if retry {
+			break
+		}
 		c.lfs("pull-after", clone, e, "pull")
 		c.lfs("fetch-all-after", clone, e, "fetch", "--all")
 	default:
